@@ -42,16 +42,22 @@ def check_c12(rep, tier):
               "r3k2r/8/8/8/8/8/8/R3K2R w KQkq - 0 1", "r3k2r/8/8/8/8/8/8/R3K2R b KQkq - 0 1",
               "4k3/8/8/8/pP6/8/8/4K3 b - b3 0 1", "n1n1k3/1P6/8/8/8/8/6p1/4K1N1 w - - 0 1"]
     fens = corpus + sample_positions(rep, "C12", 8 if tier == "quick" else 400, 20)
+    # pinned men: their pseudo-legal moves off the pin line are the texts a careless legality test lets through
+    from . import walks
+    fens += walks.pin_family(core.rng(rep.seed, "C12pins"), 14 if tier == "quick" else 400)
     squares = [f + rk for f in FILES for rk in RANKS]
     suffixes_all = ["", "q", "r", "b", "n", "Q", "k", "x", "qq", "p", " ", "N"]
     weird = ["", "e2", "e2e", "é2e4", "e2é4", "e2e4é", "😀", "e2e4qq", "0000", "e9e4", "i2i4", "E2E4", "e2e4 ", "a7a8Q",
              "a7a8qq", "c2d3", "e1g1x", "e1g1q", "éé", "e2e4\t", "a1a1", "e1g1", "e8g8", "e1c1", "e8c8"]
     cases = []
-    pre, _ = core.run_rust([["new " + f, "moves c"] for f in fens])
+    pre, _ = core.run_rust([["new " + f, "moves c", "moves u"] for f in fens])
     legal_texts = []
+    pseudo_texts = []
     for o in pre:
         ml = o[1][0] if o[1] else "0 "
         legal_texts.append([d.split(":")[0] for d in ml.split(" ", 1)[1].split(",")] if ml.split(" ", 1)[1:] and ml.split(" ", 1)[1] else [])
+        mu = o[2][0] if len(o) > 2 and o[2] else "0 "
+        pseudo_texts.append([d.split(":")[0] for d in mu.split(" ", 1)[1].split(",")] if mu.split(" ", 1)[1:] and mu.split(" ", 1)[1] else [])
     for fi, f in enumerate(fens):
         ops = ["new " + f, "moves c"]
         full = tier == "thorough" or fi < 4
@@ -61,10 +67,11 @@ def check_c12(rep, tier):
         else:
             strs = [r.choice(squares) + r.choice(squares) + r.choice(suffixes_all) for _ in range(600)]
         strs += weird + legal_texts[fi] + [t.upper() for t in legal_texts[fi][:5]] + [t + "q" for t in legal_texts[fi][:5]]
+        strs += pseudo_texts[fi]          # every pseudo-legal move: the illegal ones among them must be refused
         ops += ["parseuci " + s for s in strs]
         cases.append(ops)
         # the `position` command itself, on a smaller sample plus every legal move
-        pos_strs = r.sample(strs, min(len(strs), 250 if tier == "quick" else 1500)) + weird + legal_texts[fi]
+        pos_strs = r.sample(strs, min(len(strs), 250 if tier == "quick" else 1500)) + weird + legal_texts[fi] + pseudo_texts[fi]
         cases.append(["new " + f, "moves c"] + ["position fen %s moves %s" % (f, s) for s in pos_strs if "\t" not in s and " " not in s.strip() and s.strip()])
     stats, kinds = Counter(), Counter()
     rust, lean = searchchk.run_pair(rep, cases)
